@@ -1245,8 +1245,15 @@ class NameSites(ast.NodeVisitor):
     def visit_Compare(self, n):
         def is_str(e):
             return isinstance(e, ast.Constant) and isinstance(e.value, str)
+        def strlike(e):
+            # a string literal, an f-string, str(...) / repr(...) / "..." % ... / ...format(...): the
+            # right-hand side of `in` is text, so the test is a substring test, not membership
+            return is_str(e) or isinstance(e, ast.JoinedStr) or \
+                (isinstance(e, ast.Call) and isinstance(e.func, ast.Name) and e.func.id in ("str", "repr")) or \
+                (isinstance(e, ast.Call) and isinstance(e.func, ast.Attribute) and e.func.attr in ("format", "lower", "upper", "strip")) or \
+                (isinstance(e, ast.BinOp) and isinstance(e.op, ast.Mod) and is_str(e.left))
         for op, c in zip(n.ops, n.comparators):
-            if isinstance(op, (ast.In, ast.NotIn)) and is_str(c):
+            if isinstance(op, (ast.In, ast.NotIn)) and strlike(c):
                 self.flag("substring-test", n)      # x in "literal": substring, not membership
             if isinstance(op, (ast.Lt, ast.LtE, ast.Gt, ast.GtE)) and (is_str(n.left) or is_str(c)):
                 self.flag("string-order", n)
